@@ -391,6 +391,46 @@ Section Entries.
     rewrite Ha. cbn [obind]. rewrite Hk. reflexivity.
   Qed.
 
+  (* a file object that misbehaves after load() accepted it (read() raises, returns something
+     that is not bytes or too many bytes, closes the file): every item of the iteration is the
+     item the core reader produces over the failing stream, an I/O error becomes an OSError,
+     and load() itself still succeeds *)
+  Theorem py_load_faulty_eq_core : forall desc format protein f a k,
+    format_arg format = Value f -> protein_flag protein = Value a -> format_of f a = Value k ->
+    glue_load K (FileFaulty desc) format protein =
+      Value (RLoadSeq _ _ _ _ _
+               (map (fun it => match it with
+                               | ROk _ _ r => convert_record K a r
+                               | RErr _ _ e => PyExc (convert_error e)
+                               | RPanic _ _ => Panic
+                               end) (c_read_faulty K desc k a))) /\
+    convert_error EIo = OSError.
+  Proof.
+    intros desc format protein f a k Hf Ha Hk. unfold glue_load. rewrite Hf. cbn [obind].
+    rewrite Ha. cbn [obind]. rewrite Hk. split; reflexivity.
+  Qed.
+
+  (* a Loader is lazy: k calls of next() hand out the motifs converted from the next k items of
+     its reader (fewer when the reader ends or an item is an error), and the loader remembers how
+     far it got - interleaving with other loaders only matters through what the readers see *)
+  Theorem py_loader_lazy : forall a id calls k items calls',
+    lazy_take K a id calls k = (items, calls') ->
+    (length items <= k)%nat /\ (calls <= calls' <= calls + k)%nat /\
+    (c_lazy_next K id calls = None -> k <> O -> items = [] /\ calls' = S calls).
+  Proof.
+    intros a id calls k. revert calls. induction k as [|k IH]; intros calls items calls' H.
+    - inversion H; subst. simpl. repeat split; try lia; intros; congruence.
+    - cbn [lazy_take] in H. destruct (c_lazy_next K id calls) as [[r|e|]|] eqn:E.
+      + destruct (convert_record K a r).
+        * destruct (lazy_take K a id (S calls) k) as [l c] eqn:El. inversion H; subst.
+          destruct (IH _ _ _ El) as [H1 [H2 _]]. simpl. repeat split; try lia; intros; discriminate.
+        * inversion H; subst. simpl. repeat split; try lia; intros; discriminate.
+        * inversion H; subst. simpl. repeat split; try lia; intros; discriminate.
+      + inversion H; subst. simpl. repeat split; try lia; intros; discriminate.
+      + inversion H; subst. simpl. repeat split; try lia; intros; discriminate.
+      + inversion H; subst. simpl. repeat split; try lia; auto.
+  Qed.
+
   (* record -> motif conversion: counts -> to_freq(0.0) -> to_weight(None) -> to_scoring();
      UniPROBE frequencies -> to_weight(None) -> to_scoring(); TRANSFAC without counts: ValueError *)
   Theorem py_record_conversion : forall a name tname desc id acc c f,
@@ -413,6 +453,115 @@ Section Entries.
     destruct (zlist_eqb f str_jaspar16) eqn:E2; [apply zlist_eqb_eq in E2; congruence|].
     destruct (zlist_eqb f str_transfac) eqn:E3; [apply zlist_eqb_eq in E3; congruence|].
     destruct (zlist_eqb f str_uniprobe) eqn:E4; [apply zlist_eqb_eq in E4; congruence|]. reflexivity.
+  Qed.
+
+  (* ---------------------------------------------------------------- EncodedSequence, ==, str, copies *)
+
+  Theorem py_encode_eq_core : forall sequence protein s a,
+    extract_str sequence = Value s -> protein_flag protein = Value a ->
+    glue_encode K sequence protein = (_ <~ lift ValueError (c_encode_ok K a s) ;; Value (OEncoded _ _ _ _ _ a s)) /\
+    glue_enc_stripe K a s = (q <~ lift ValueError (c_stripe K a s) ;; Value (OSeq _ _ _ _ _ a q)) /\
+    (* stripe(text) and EncodedSequence(text).stripe() are the same core call *)
+    (c_encode_ok K a s = COk tt -> glue_enc_stripe K a s = glue_stripe K sequence protein).
+  Proof.
+    intros sequence protein s a Hs Ha. unfold glue_encode, glue_enc_stripe, glue_stripe.
+    rewrite Hs, Ha. repeat split; reflexivity.
+  Qed.
+
+  (* == is the derived PartialEq of the core data for two objects of the same class and alphabet,
+     False for anything else (other class, other alphabet, not an object of the module) *)
+  Theorem py_eq_is_core_eq : forall a c c' w w' s s',
+    glue_eq K (OCount _ _ _ _ _ a c) (Some (OCount _ _ _ _ _ a c')) = Some (c_cm_eq K c c') /\
+    glue_eq K (OWeight _ _ _ _ _ a w) (Some (OWeight _ _ _ _ _ a w')) = Some (c_wm_eq K w w') /\
+    glue_eq K (OScoring _ _ _ _ _ a s) (Some (OScoring _ _ _ _ _ a s')) = Some (c_sm_eq K s s') /\
+    glue_eq K (OCount _ _ _ _ _ Dna c) (Some (OCount _ _ _ _ _ Protein c')) = Some false /\
+    glue_eq K (OCount _ _ _ _ _ a c) (Some (OWeight _ _ _ _ _ a w)) = Some false /\
+    glue_eq K (OScoring _ _ _ _ _ a s) (Some (OWeight _ _ _ _ _ a w)) = Some false /\
+    glue_eq K (OWeight _ _ _ _ _ a w) None = Some false /\
+    glue_eq K (OScoring _ _ _ _ _ a s) None = Some false.
+  Proof. intros. destruct a; repeat split; reflexivity. Qed.
+
+  Theorem py_dist_eq_core : forall s,
+    (ordered_ok true (c_sm_cells K s) = true ->
+     glue_dist K s = (d <~ liftp (c_dist_sf K s) ;; Value (ODist _ _ _ _ _ d))) /\
+    (ordered_ok true (c_sm_cells K s) = false -> glue_dist K s = PyExc ValueError).
+  Proof. intros s. unfold glue_dist. split; intros ->; reflexivity. Qed.
+
+  (* the slots a call may rebind: its destination, the sequence it reconfigures, the scanner it
+     advances, the name it deletes *)
+  Definition writes (c : call) : list nat :=
+    match c with
+    | KCountInit d _ _ | KNormalize d _ _ | KLogOdds d _ _ _ | KScoringInit d _ _ _ | KStripe d _ _
+    | KRevcomp d _ | KCreate d _ _ _ | KGetMotif d _ _ | KLoad d _ _ _ | KGetLoaded d _ _ _
+    | KEncode d _ _ | KEncStripe d _ | KCopy d _ | KDist d _ | KFileNew d | KLoaderNew d _ _ _ => [d]
+    | KCalculate d _ (PRef n) => [d; n]
+    | KCalculate d _ _ => [d]
+    | KScan d _ (PRef n) _ _ => [d; n]
+    | KScan d _ _ _ _ => [d]
+    | KNext n _ | KDelete n | KLoaderNext n _ => [n]
+    | KThreshold _ _ | KMax _ | KArgmax _ | KPvalue _ _ _ | KScore _ _ _ | KMaxScore _ | KEq _ _ | KStr _ => []
+    end.
+
+  Lemma lookup_unbind_other : forall (st : state CM WM SM SQ SC) n m,
+    n <> m -> lookup _ _ _ _ _ (unbind _ _ _ _ _ st n) m = lookup _ _ _ _ _ st m.
+  Proof.
+    intros st n m Hnm. induction st as [|[k o] r IH]; [reflexivity|]. cbn [unbind lookup].
+    destruct (Nat.eqb k n) eqn:E1.
+    - apply Nat.eqb_eq in E1. subst k. rewrite IH.
+      destruct (Nat.eqb n m) eqn:E2; [apply Nat.eqb_eq in E2; congruence | reflexivity].
+    - cbn [lookup]. rewrite IH. reflexivity.
+  Qed.
+
+  Lemma lookup_bind_other : forall (st : state CM WM SM SQ SC) n o m,
+    n <> m -> lookup _ _ _ _ _ (bind_slot _ _ _ _ _ st n o) m = lookup _ _ _ _ _ st m.
+  Proof.
+    intros st n o m Hnm. unfold bind_slot. cbn [lookup].
+    destruct (Nat.eqb n m) eqn:E; [apply Nat.eqb_eq in E; congruence | reflexivity].
+  Qed.
+
+  Lemma store_frame : forall (st : state CM WM SM SQ SC) d o m,
+    d <> m -> lookup _ _ _ _ _ (snd (store _ _ _ _ _ st d o)) m = lookup _ _ _ _ _ st m.
+  Proof.
+    intros st d o m Hd. destruct o; cbn [store snd];
+      rewrite ?lookup_bind_other, ?lookup_unbind_other by assumption; reflexivity.
+  Qed.
+
+  (* frame property: a call leaves every slot it does not name as it is *)
+  Theorem py_frame : forall st c m,
+    ~ In m (writes c) -> lookup _ _ _ _ _ (snd (run_call K st c)) m = lookup _ _ _ _ _ st m.
+  Proof.
+    intros st c m H.
+    destruct c; try destruct sequence; cbn [run_call];
+      repeat match goal with
+             | |- lookup _ _ _ _ _ (snd (match ?x with _ => _ end)) _ = _ => destruct x
+             | |- lookup _ _ _ _ _ (snd (let (_, _) := ?x in _)) _ = _ => destruct x
+             end;
+      cbn [snd writes] in *;
+      rewrite ?store_frame, ?lookup_bind_other, ?lookup_unbind_other
+        by (intro; subst; apply H; simpl; auto);
+      try reflexivity.
+  Qed.
+
+  (* copy() / __copy__: the copy is an object of its own with the value of the original, and
+     whatever is done to one of them afterwards (reconfiguring by calculate / scan, deleting,
+     rebinding) never changes the other *)
+  Theorem py_copy_independent : forall st d n o,
+    lookup _ _ _ _ _ st n = Some o -> d <> n ->
+    (forall v, glue_copy _ _ _ _ _ o = Value v -> v = o /\
+               lookup _ _ _ _ _ (snd (run_call K st (KCopy d n))) d = Some o) /\
+    lookup _ _ _ _ _ (snd (run_call K st (KCopy d n))) n = Some o /\
+    (forall st' c, ~ In n (writes c) ->
+       lookup _ _ _ _ _ (snd (run_call K st' c)) n = lookup _ _ _ _ _ st' n) /\
+    (forall st' c, ~ In d (writes c) ->
+       lookup _ _ _ _ _ (snd (run_call K st' c)) d = lookup _ _ _ _ _ st' d).
+  Proof.
+    intros st d n o Hn Hd. repeat split.
+    - destruct o; simpl in H; inversion H; reflexivity.
+    - cbn [run_call]. rewrite Hn, H. cbn [store snd]. unfold bind_slot. cbn [lookup].
+      rewrite Nat.eqb_refl. f_equal. destruct o; simpl in H; inversion H; reflexivity.
+    - rewrite py_frame; [exact Hn | simpl; intros [E|[]]; congruence].
+    - intros; apply py_frame; assumption.
+    - intros; apply py_frame; assumption.
   Qed.
 
   (* ---------------------------------------------------------------- object lifetimes *)
@@ -568,7 +717,9 @@ Theorem py_signatures_tied :
   format_arg None = Value gen_load_format /\ gen_loader_format = gen_load_format /\
   forallb negb gen_protein_defaults = true /\
   gen_normalize_pseudocount_none = true /\ gen_scoring_init_background_none = true /\
-  gen_create_name_none = true.
+  gen_create_name_none = true /\
+  gen_encoded_params = [[115; 101; 113; 117; 101; 110; 99; 101]; [112; 114; 111; 116; 101; 105; 110]] /\
+  gen_encoded_keyword_only = false.
 Proof. repeat split; reflexivity. Qed.
 
 (* first-match semantics of the `match format { "jaspar" if protein => ..., ... }` of Loader.__init__
@@ -682,6 +833,10 @@ Definition toy : core Z Z Z Z (list Z * Z) Z := {|
   c_revcomp := fun s => COk s;
   c_max_score := fun s => COk s;
   c_sm_cells := fun s => repeat [0; 0; 0; 0; 4286578688] (Z.to_nat s);
+  c_cm_eq := Z.eqb;
+  c_wm_eq := Z.eqb;
+  c_sm_eq := Z.eqb;
+  c_dist_sf := fun s => COk [s];
   c_stripe := fun _ s => COk (s, 0);
   c_configure := fun q s => COk (fst q, Z.max (snd q) (s - 1));
   c_score := fun s q => if s - 1 <=? snd q then COk (Z.of_nat (length (fst q)) - s + 1) else CPanic;
@@ -693,7 +848,9 @@ Definition toy : core Z Z Z Z (list Z * Z) Z := {|
   c_tfm_pvalue := fun s x => COk 3;
   c_tfm_score := fun s x => COk 4;
   c_scan := fun s q t b => if s - 1 <=? snd q then COk [(0, s); (1, s); (2, s)] else CPanic;
-  c_read := fun _ _ _ => []
+  c_read := fun _ _ _ => [];
+  c_read_faulty := fun _ _ _ => [RErr Z Z EIo];
+  c_lazy_next := fun _ _ => None
 |}.
 
 Definition f64_half : Z := 4602678819172646912.   (* 0.5 *)
